@@ -43,6 +43,8 @@ SEQS = [0, 1, 127, 128, 255, 256, 32767, 65535]
 def cases(tier, rng):
     thorough = tier == "thorough"
     cs = []
+    for line in ("c11 keep strip all 0 7 150", "c11 keep drop all 0 8 190"):
+        cs.append({"line": line, "key": line, "model": False, "tags": {"cmd": "handshake", "codec": "negotiated", "src": "unencodable-then-next"}})
     doms = [domain(n, rng) for n in ([3, 11, 40, 100, 180] if not thorough else [1, 3, 11, 25, 40, 77, 100, 150, 180, 200])]
     # the fragment size is the one the implementation computes for the domain and codec (asked from the harness before the cases are
     # made): "payloads up to the upstream fragment size it computed". The formula below is only the fall-back when the harness is absent.
@@ -147,6 +149,12 @@ def upstream_mtu(dlen, codec):
 
 def oracle(case, impl):
     p = impl.split()
+    if case["line"].startswith("c11 "):
+        # the witness of the repaired 6e19d61: a request that cannot be encoded (here: a test pattern of the negotiation under a long domain)
+        # must leave the client able to send the next one
+        if not p or p[0] in ("died", "timeout", "harness-error") or p[:2] == ["hs", "nonterm"]:
+            return [("client-blocked-after-unencodable-request", "after a request that does not fit into a name the client never sent another one (%s -> %s)" % (case["line"], impl[:80]))]
+        return []
     if not p or p[0] in ("panic", "died", "timeout", "harness-error"):
         site = p[1] if len(p) > 1 else "?"
         return [("panic=" + site, "request path crashed: %s on %s" % (impl[:120], case["line"][:160]))]
